@@ -6,6 +6,7 @@ def dispatchHelpers (line : String) : String :=
   | "gather" :: args => handleGather args
   | "headers" :: args => handleHeaders args
   | "skel" :: args => handleSkel args
+  | "fmod" :: args => handleFmod args
   | _ => "bad-op"
 
 partial def loopHelpers (h : IO.FS.Stream) (out : IO.FS.Stream) : IO Unit := do
